@@ -204,7 +204,87 @@ def run(ctx):
     lib = native.load("plain")
     layout_part(ctx, res, lib)
     compact_part(ctx, res, lib, cases, outs)
+    float_stream(ctx, res)
     return res
+
+
+def float_stream(ctx, res):
+    """real-valued, small-amplitude series (accumulated costs below 1) with thresholds in (0, 1): the configuration in
+    which a threshold and its square differ the other way round; matrices of the three C forms and of the Python
+    engine against an unpruned floating-point evaluation of the recurrence (tolerance 1e-9, cells within 1e-9 of the
+    threshold skipped)"""
+    import numpy as np
+    from dtaidistance import dtw, dtw_cc
+    rng = ctx.rng
+    tol = 1e-9
+    for _ in range(1500 if ctx.thorough else 150):
+        l1, l2 = rng.randint(1, 7), rng.randint(1, 7)
+        amp = rng.choice([0.05, 0.1, 1.0])
+        s1 = np.array([amp * rng.randint(-4, 4) for _ in range(l1)])
+        s2 = np.array([amp * rng.randint(-4, 4) for _ in range(l2)])
+        inner = rng.choice(["squared euclidean", "euclidean", "euclidean"])
+        window = rng.choice([None, None, 1, 2, 3])
+        penalty = rng.choice([None, 0.05, 0.5])
+        md = rng.choice([None, 0.35, 0.8, 3.0])
+        kw = {"inner_dist": inner}
+        if window: kw["window"] = window
+        if penalty: kw["penalty"] = penalty
+        if md: kw["max_dist"] = md
+        sq = inner == "squared euclidean"
+        w = window or max(l1, l2)
+        pen = (penalty or 0.0) ** (2 if sq else 1)
+        R = np.full((l1 + 1, l2 + 1), math.inf)
+        R[0, 0] = 0.0
+        band = np.zeros((l1 + 1, l2 + 1), dtype=bool)
+        for i in range(l1):
+            for j in range(max(0, i - max(0, l1 - l2) - w + 1), min(l2, i + max(0, l2 - l1) + w)):
+                band[i + 1, j + 1] = True
+                d = (s1[i] - s2[j]) ** 2 if sq else abs(s1[i] - s2[j])
+                R[i + 1, j + 1] = d + min(R[i, j], R[i, j + 1] + pen, R[i + 1, j] + pen)
+        Ru = np.sqrt(R) if sq else R
+        res.evaluations += 1
+        res.hit("float_stream")
+        res.nontrivial.add(repr(("float", s1.tolist(), s2.tolist(), sorted(kw.items()))))
+
+        def compact():
+            d, mk = dtw.warping_paths_fast(s1, s2, compact=True, **kw)
+            st = dtw_cc.DTWSettings(**{k: v for k, v in dtw.DTWSettings(**kw).c_kwargs().items()})
+            full = np.empty((l1 + 1, l2 + 1))
+            dtw_cc.wps_expand_slice(mk, full, l1, l2, 0, l1 + 1, 0, l2 + 1, st)
+            return d, full
+        for route, fn in (("python warping_paths", lambda: dtw.warping_paths(s1, s2, **kw)),
+                          ("C warping_paths_fast", lambda: dtw.warping_paths_fast(s1, s2, **kw)),
+                          ("C compact + expansion", compact)):
+            try:
+                d, m = fn()
+                m = np.array(m, dtype=float)
+            except BaseException as ex:
+                if isinstance(ex, (KeyboardInterrupt, SystemExit)):
+                    raise
+                if route.startswith("C compact"):
+                    continue        # affinity-style expansion entry point may reject plain settings; covered elsewhere
+                res.violations.append({"clause": "routine raised", "route": route, "s1": s1.tolist(), "s2": s2.tolist(),
+                                       "kw": kw, "got": type(ex).__name__ + ":" + str(ex)[:100]})
+                continue
+            bad = []
+            for i in range(l1 + 1):
+                for j in range(l2 + 1):
+                    ref, v = Ru[i, j], m[i, j]
+                    if i == 0 or j == 0 or not band[i, j]:
+                        if not (math.isinf(v) or (i == 0 and j == 0 and v == 0)):
+                            bad.append((i, j, v, "outside the band / border"))
+                        continue
+                    if md and abs(ref - md) < tol:
+                        continue
+                    if md and ref > md:
+                        if not (math.isinf(v) or v > md - tol):
+                            bad.append((i, j, v, ref))
+                    elif not (abs(v - ref) <= tol * max(1.0, abs(ref))):
+                        bad.append((i, j, v, ref))
+            if bad:
+                res.violations.append({"clause": "cell-wise optimal / inf outside band / freedom above max_dist "
+                                                 "(real-valued data)", "route": route, "s1": s1.tolist(),
+                                       "s2": s2.tolist(), "kw": kw, "bad_cells": bad[:6]})
 
 
 def layout_part(ctx, res, lib):
